@@ -40,7 +40,7 @@ ANCHORS = [
 REQUIRED = ["invocations_judged", "runs_judged", "feasibility_judged", "binding_invocations", "acceptance_judged", "bounds_judged",
             "estimator_bound_binding", "estimator_bound_sid_differs_from_station", "amp_periods_binding", "inactive_station_zero_checked",
             "algo:greedy", "algo:rr", "sort:fcfs", "sort:lcfs", "sort:edf", "sort:llf", "sort:lrpt", "est:None", "est:rampdown", "est:fixed",
-            "unint:on", "unint:off", "evse:EVSE", "evse:FR", "mixed_sign_network", "invocations_after_an_edit"]
+            "unint:on", "unint:off", "evse:EVSE", "evse:FR", "mixed_sign_network", "invocations_after_an_edit", "runs_with_a_reused_algorithm_object"]
 BUDGET_S = {"quick": 270, "thorough": 3300}
 
 
@@ -93,7 +93,10 @@ def cases(seed, tier):
             d["recompute"] = []
         if rng.random() < 0.25:
             d["edits"] = gen.rand_edits(rng, d["network"], max(s_["departure"] for s_ in d["sessions"]))
-        out.append({"desc": d})
+        c = {"desc": d}
+        if rng.random() < 0.12:
+            c["warm"] = gen.scenario(rng, sched=dict(d["scheduler"]), kinds=("EVSE", "FR"), nmax=5, sess_max=6, constraint_free_p=0.1)
+        out.append(c)
     return out
 
 
@@ -104,7 +107,22 @@ def run_case(case, obs):
     st = {s["id"]: s for s in d["network"]["stations"]}
     sess = {s["id"]: s for s in d["sessions"]}
     period = d["period"]
-    sim, evs = build.build_sim(d)
+    warm = case.get("warm")
+    if warm is not None:
+        # the algorithm object is not new: it has just run a whole other simulation (other network, other sessions)
+        import warnings as _w
+        algo0 = build.build_scheduler(d)
+        sim0, _ = build.build_sim(warm, scheduler=algo0)
+        with _w.catch_warnings():
+            _w.simplefilter("ignore")
+            try:
+                sim0.run()
+            except Exception:
+                pass
+        sim, evs = build.build_sim(d, scheduler=algo0)
+        obs.ev("runs_with_a_reused_algorithm_object")
+    else:
+        sim, evs = build.build_sim(d)
     algo = sim.scheduler
     net = sim.network
     est = getattr(algo, "max_rate_estimator", None)
